@@ -7,7 +7,10 @@
   (decoding of the payload is C03; decoding from a list of chunks equals
   decoding from their concatenation by construction of the chained reader).
 -/
+import Amqp.Gen.ReasmKernels
+
 namespace Amqp.Reasm
+open Amqp.Gen.ReasmK.on_incoming_transfer_order
 
 abbrev Bytes := List UInt8
 
@@ -66,9 +69,16 @@ def deliver (id : Option Nat) (tag : Option Bytes) (fmt : Option Nat) (settled :
   | some i, some t => .delivery i t fmt (settled.getD false) payload
   | _, _ => .missingIdOrTag
 
+/-- source fact: the abort flag is looked at before the `more` flag and before the state of the frame,
+    and the delivery under construction is dropped right there -/
+def abortFirst : Bool :=
+  decide (idx_if_transfer___aborted < idx_if_transfer___more) &&
+  decide (idx_if_transfer___aborted < idx_transfer___state___clone____) &&
+  decide (idx_self___incomplete_transfer___take____ < idx_if_transfer___more)
+
 /-- `ReceiverInner::on_incoming_transfer` -/
 def step (st : Option Inc) (f : Frame) : Option Inc × Out :=
-  if f.aborted then (none, .nothing)
+  if abortFirst && f.aborted then (none, .nothing)
   else if f.more then
     match st with
     | some i => match merge i f with
@@ -76,6 +86,7 @@ def step (st : Option Inc) (f : Frame) : Option Inc × Out :=
       | none => (some i, .inconsistent)       -- `?` leaves the incomplete transfer in place
     | none => (some { id := f.id, tag := f.tag, fmt := f.fmt, settled := f.settled, buf := [f.payload] },
                .nothing)
+  else if f.aborted then (none, .nothing)     -- reached only if the abort flag were looked at after `more`
   else
     match st with
     | some i => match merge i f with
